@@ -420,6 +420,39 @@ pub fn batch(engine: &dyn Engine, a: &BatchArgs) -> i32 {
 
     // ---- violations: dedupe by signature, known findings, minimise, report
     let known = load_known(&a.prop);
+    // recorded findings come with a committed replay file: reproduce each one so that its
+    // KNOWN-FINDING line does not depend on the random workload hitting it in this batch
+    let mut probed: Vec<(String, String)> = Vec::new();
+    for (prefix, what, replay) in load_known_replays(&a.prop) {
+        let out = Command::new(exe())
+            .arg("replay")
+            .arg(verif_dir().join(&replay))
+            .stdout(Stdio::piped())
+            .stderr(Stdio::null())
+            .output();
+        if let Ok(out) = out {
+            let stdout = String::from_utf8_lossy(&out.stdout).to_string();
+            let sig = stdout
+                .lines()
+                .find(|l| l.starts_with("RESULT viol "))
+                .map(|l| l["RESULT viol ".len()..].to_string())
+                .unwrap_or_else(|| {
+                    if stdout.lines().any(|l| l == "RESULT ok") {
+                        String::new()
+                    } else {
+                        let class = fs::read_to_string(verif_dir().join(&replay))
+                            .ok()
+                            .and_then(|t| serde_json::from_str::<Value>(&t).ok())
+                            .and_then(|v| v["workload"]["class"].as_str().map(|c| format!(" [workload class {}]", c)))
+                            .unwrap_or_default();
+                        crash_signature(&a.prop, &format!("{}{}", status_text(&out.status), class))
+                    }
+                });
+            if !sig.is_empty() && sig.starts_with(prefix.as_str()) {
+                probed.push((prefix, what));
+            }
+        }
+    }
     let mut by_sig: BTreeMap<String, (Value, u64)> = BTreeMap::new();
     for v in agg.violations.drain(..) {
         let sig = v["signature"].as_str().unwrap_or("?").to_string();
@@ -437,6 +470,7 @@ pub fn batch(engine: &dyn Engine, a: &BatchArgs) -> i32 {
     let mut minimised = 0;
     for (sig, (replay, count)) in by_sig {
         if let Some(k) = known.iter().find(|k| sig.starts_with(k.0.as_str())) {
+            probed.retain(|p| p.0 != k.0);
             println!("KNOWN-FINDING: property={} {} [{} run(s), signature {}]", a.prop, k.1, count, sig);
             known_hits.push(json!({ "signature": sig, "runs": count, "what": k.1 }));
             continue;
@@ -467,6 +501,10 @@ pub fn batch(engine: &dyn Engine, a: &BatchArgs) -> i32 {
         exit = 1;
     }
 
+    for (prefix, what) in &probed {
+        println!("KNOWN-FINDING: property={} {} [reproduced from its committed replay file, signature prefix {}]", a.prop, what, prefix);
+        known_hits.push(json!({ "signature": prefix, "runs": 0, "what": what, "reproduced_from_replay_file": true }));
+    }
     // ---- evidence
     // faults injected by the workload itself (not through the tape) are counted by probes
     let mut fired = agg.fired.clone();
@@ -567,6 +605,32 @@ pub fn batch(engine: &dyn Engine, a: &BatchArgs) -> i32 {
         return 2;
     }
     exit
+}
+
+fn load_known_replays(prop: &str) -> Vec<(String, String, String)> {
+    if std::env::var("VERIF_IGNORE_KNOWN").is_ok() {
+        return Vec::new();
+    }
+    let text = match fs::read_to_string(verif_dir().join("known_findings.json")) {
+        Ok(t) => t,
+        Err(_) => return Vec::new(),
+    };
+    let v: Value = serde_json::from_str(&text).unwrap_or(Value::Null);
+    v["findings"]
+        .as_array()
+        .map(|fs| {
+            fs.iter()
+                .filter(|f| f["property"].as_str() == Some(prop) && f["replay"].is_string())
+                .map(|f| {
+                    (
+                        f["signature_prefix"].as_str().unwrap_or("\u{0}").to_string(),
+                        f["what"].as_str().unwrap_or("").to_string(),
+                        f["replay"].as_str().unwrap_or("").to_string(),
+                    )
+                })
+                .collect()
+        })
+        .unwrap_or_default()
 }
 
 fn load_known(prop: &str) -> Vec<(String, String)> {
